@@ -200,6 +200,25 @@ theorem c15_unflushed_can_miss :
     ∧ (run init [Op.listen [], Op.emit false 1, Op.emit false 2, Op.emit false 3, Op.resume 0]).emitted = [1, 2, 3]
     ∧ ¬ Flushed init [Op.listen [], Op.emit false 1, Op.emit false 2, Op.emit false 3, Op.resume 0] := by decide
 
+/-- Model fidelity: on every reachable state the closed forms used by `step` are exactly the loops of the code —
+`resume_chain_lk` walking the detached chain awaiter by awaiter inside the collector call and inside `~state`. -/
+theorem c15_model_is_the_loop {s : State} (h : Reachable s) (r : Bool) (v : Nat) :
+    stepEmitLoop s r v = stepEmit s r v ∧ stepDropLoop s = stepDrop s :=
+  ⟨stepEmit_eq_loop s (reachable_inv h).chain_nodup r v, stepDrop_eq_loop s (reachable_inv h).chain_nodup⟩
+
+/-- Publication discipline (found by the baton harness, repaired in /repo 58a90f6): in the repaired `awaiter::subscribe`
+nothing follows the CAS that publishes the awaiter, so under every schedule of any number of subscribing threads and
+chain releases no destroyed awaiter is ever read. -/
+theorem c15_subscribe_no_touch_after_publish (ops : List Pub.Op) (h : ∀ l, Pub.Op.post l ∉ ops) :
+    (Pub.run ops).uaf = false :=
+  Pub.foldl_uaf ops {} h rfl
+
+/-- The pinned code evaluated `assert(_next != this)` after the publishing CAS: subscriber publishes, the collector's
+thread releases the chain and the one-shot listener's awaiter dies, then the subscriber reads it
+(heap-use-after-free on the headers with assertions enabled: corpus/c15t_subscribe_assert_uaf.txt). -/
+theorem c15_asis_subscribe_uaf :
+    (Pub.run [Pub.Op.cas 0, Pub.Op.release, Pub.Op.post 0]).uaf = true := by decide
+
 /-! ### non-vacuity: flushed histories with re-awaiting, gating and leaving listeners, callbacks, by-value and
 by-reference calls, a held-then-flushed suspend point, and disconnection -/
 
